@@ -66,6 +66,37 @@ func fontfileBuild(f Fields) *sfnt.Font {
 			}
 		}
 	}
+	// comp=<k>:<variant>: glyph k of a TrueType font is replaced by a composite glyph made of glyph k-1
+	// at offset (0,0); variants: noinstr (no instruction block), empty (WE_HAVE_INSTRUCTIONS with an
+	// empty block, what glyf.Decode delivers for instruction length 0), odd (3 instruction bytes)
+	if cs := f["comp"]; cs != "" && cs != "-" {
+		if o, ok := font.Outlines.(*glyf.Outlines); ok {
+			var k int
+			var variant string
+			if _, err := fmt.Sscanf(strings.Replace(cs, ":", " ", 1), "%d %s", &k, &variant); err != nil {
+				panic("bad comp field")
+			}
+			if k >= 2 && k < len(o.Glyphs) && o.Glyphs[k-1] != nil {
+				flags := glyf.FlagArgsAreXYValues
+				var instr []byte
+				switch variant {
+				case "empty":
+					flags |= glyf.FlagWeHaveInstructions
+					instr = []byte{}
+				case "odd":
+					flags |= glyf.FlagWeHaveInstructions
+					instr = []byte{0x4b, 0x4b, 0x4b}
+				}
+				o.Glyphs[k] = &glyf.Glyph{
+					Rect16: o.Glyphs[k-1].Rect16,
+					Data: glyf.CompositeGlyph{
+						Components:   []glyf.GlyphComponent{{Flags: flags, GlyphIndex: glyph.ID(k - 1), Data: []byte{0, 0}}},
+						Instructions: instr,
+					},
+				}
+			}
+		}
+	}
 	if gl := f.Ints("glyphs"); len(gl) > 0 {
 		ids := make([]glyph.ID, len(gl))
 		for i, g := range gl {
@@ -454,7 +485,13 @@ func areaFontfile(c *Ctx) {
 		case i > 4 && r.Chance(1, 6):
 			widths = Pick(r, []string{"zero", "one"})
 		}
-		args := fmt.Sprintf("base=%s widths=%s glyphs=%s runes=%s", base, widths, ints(glyphs), ints(runes))
+		comp := "-"
+		if base != "debug" && len(glyphs) == 0 && (i == 2 || (i != 0 && r.Chance(1, 3))) {
+			// complete TrueType fonts only: the composite needs its component next to it
+			comp = fmt.Sprintf("%d:%s", r.Range(2, total-1), Pick(r, []string{"empty", "empty", "noinstr", "odd"}))
+		}
+		c.Stat("composite", strings.TrimLeft(comp, "0123456789:"))
+		args := fmt.Sprintf("base=%s widths=%s comp=%s glyphs=%s runes=%s", base, widths, comp, ints(glyphs), ints(runes))
 		c.Stat("widths", widths)
 		c.Stat("base", base)
 		c.Stat("glyphs", bucket(len(glyphs)))
